@@ -399,9 +399,10 @@ def client_fault_run(ctx, bins, peer, rid, max_servers, after_answers, stats):
     if not sel:
         return
     keys = sorted({key_of(i) for i in sel.values()})
-    # one instance leaves at once, the others take 1.2 s to drain
+    # with -v the runner walks the instances in sorted order, plaintext and TLS alternating: of two neighbouring
+    # batches one server leaves at once and the other takes 1.2 s to drain
     script = {"default": "canned", "probe": False, "seed": ctx.seed * 10 + rid, "mode": "logging", "stop_delay_ms": 1200,
-              "stop_delay_ms_for": {k: 20 for k in keys[rid % len(keys)::3]}, "exit_after_answers": after_answers, "exit_code": 1, "answer_delay_max_ms": 20}
+              "stop_delay_ms_for": {k: 20 for k in keys if ("tls=false" in k) == (rid % 2 == 0)}, "exit_after_answers": after_answers, "exit_code": 1, "answer_delay_max_ms": 20}
     args = ["-v", "--conf", confp, "--mode", "both", "--max-servers", str(max_servers), "--run", "Basic/**", "--", peer, "client", "----", peer, "server"]
     env = {"VERIF_EVENTLOG": evp, "VERIF_PEER_SCRIPT": json.dumps(script)}
     label = "c05-cfault-%d" % rid
@@ -494,7 +495,7 @@ def run(ctx, bins, peer, tier):
         stubborn_servers_run(ctx, bins, peer, ms_, stats)
     for ms_ in ((1,) if tier == "quick" else (1, 2, 3)):
         client_mode_bound_run(ctx, bins, peer, ms_, stats)
-    for j, (ms_, after) in enumerate([(2, 6), (3, 10)] if tier == "quick" else [(2, 6), (3, 10), (2, 3), (3, 20), (8, 12), (2, 25)]):
+    for j, (ms_, after) in enumerate([(2, 6), (2, 6), (3, 10), (3, 10)] if tier == "quick" else [(2, 6), (2, 6), (3, 10), (3, 10), (2, 3), (3, 20), (8, 12), (2, 25), (2, 14), (3, 3)]):
         client_fault_run(ctx, bins, peer, j, ms_, after, stats)
     nruns = 18 if tier == "quick" else 150
     plans = []
